@@ -50,7 +50,12 @@ def _cuts(E, case, marks):
         cuts.add(c % L)
     cuts.update(range(0, min(L, 12)))
     cuts.update(range(max(0, L - 12), L))
-    return sorted(cuts)
+    cuts = sorted(cuts)
+    if len(cuts) > 400:
+        # objects with thousands of fields (253+ inputs): all boundaries of the first and last fields, an even sample in between
+        step = max(1, (len(cuts) - 240) // 160)
+        cuts = cuts[:120] + cuts[120:-120:step] + cuts[-120:]
+    return cuts
 
 
 def _prefix_ext(cls, E, obj_fields_ok, case, marks, what):
